@@ -65,13 +65,47 @@ INT_CONES = {k: v[0] for k, v in EXACT_CONES.items()}
 INT_CONES.update(OWN_CONES)
 
 _order_cache: dict = {}
+_given_cache: dict = {}
+
+
+def given_W(spec):
+    """the facet matrix THE CALLER handed to `OrderingCone(...)` (float copy), rows in the caller's order —
+    the per-facet slack of the property is indexed by these rows"""
+    build_order(spec)
+    return _given_cache[repr(spec)].copy()
 
 
 def build_order(spec):
-    """real order object built by the real constructors (cached per spec)"""
+    """real order object built by the real constructors (cached per spec); the matrix argument received by
+    `OrderingCone.__init__` is recorded (wrapper installed only for the duration of the construction)"""
     key = repr(spec)
     if key in _order_cache:
         return _order_cache[key]
+    import vopy.ordering_cone as _oc
+
+    seen = []
+    orig_init = _oc.OrderingCone.__init__
+
+    def recording_init(self, W, *a, **kw):
+        seen.append(np.array(W, dtype=float))
+        return orig_init(self, W, *a, **kw)
+
+    _oc.OrderingCone.__init__ = recording_init
+    try:
+        o = _construct_order(spec)
+    finally:
+        _oc.OrderingCone.__init__ = orig_init
+    if len(seen) != 1:
+        raise RuntimeError("expected exactly one OrderingCone construction, saw %d" % len(seen))
+    if len(_order_cache) > 400:
+        _order_cache.clear()
+        _given_cache.clear()
+    _order_cache[key] = o
+    _given_cache[key] = np.atleast_2d(seen[0])
+    return o
+
+
+def _construct_order(spec):
     from vopy.order import (ComponentwiseOrder, ConeOrder3D, ConeOrder3DIceCream, ConeTheta2DOrder,
                             PolyhedralConeOrder)
     from vopy.ordering_cone import OrderingCone
@@ -97,9 +131,6 @@ def build_order(spec):
         o = ConeOrder3DIceCream(spec["deg"], spec["k"])
     else:
         raise ValueError(t)
-    if len(_order_cache) > 400:
-        _order_cache.clear()
-    _order_cache[key] = o
     return o
 
 
@@ -341,7 +372,7 @@ def band_targets(rng, t):
 def gen_rect_float(ctx, rng, nprng):
     spec = pick_order(ctx, rng, nprng)
     order = build_order(spec)
-    W = np.array(order.ordering_cone.W, dtype=float)
+    W = given_W(spec)
     N, m = W.shape
     mag = 10.0 ** nprng.uniform(-2, 2)
     c1 = nprng.normal(size=m) * mag
@@ -429,7 +460,7 @@ def rand_sigma(rng, nprng, m):
 def gen_ell(ctx, rng, nprng):
     spec = pick_order(ctx, rng, nprng)
     order = build_order(spec)
-    W = np.array(order.ordering_cone.W, dtype=float)
+    W = given_W(spec)
     N, m = W.shape
     S1, how1 = rand_sigma(rng, nprng, m)
     rel = rng.choice(["identical", "nested12", "nested21", "overlap", "disjoint", "othershape"])
@@ -492,7 +523,7 @@ def gen_badslack(ctx, rng, nprng):
     kind = rng.choice(["rect", "ell", "ell", "negalpha"])
     spec = pick_order(ctx, rng, nprng)
     order = build_order(spec)
-    W = np.array(order.ordering_cone.W, dtype=float)
+    W = given_W(spec)
     N, m = W.shape
     if kind == "negalpha":  # outside the property's quantifier: information only
         return {"kind": "ell", "order": spec, "c1": [0.0] * m, "S1": np.eye(m).tolist(),
@@ -570,7 +601,7 @@ def gen_hist_rect(ctx, rng):
 def gen_hist_ell(ctx, rng, nprng):
     spec = pick_order(ctx, rng, nprng)
     order = build_order(spec)
-    N, m = np.array(order.ordering_cone.W).shape
+    N, m = given_W(spec).shape
     if m < 2:
         return None
 
@@ -581,7 +612,7 @@ def gen_hist_ell(ctx, rng, nprng):
 
     c1, S1, a1 = region()
     c2, S2, a2 = region()
-    d = interior_dir(np.array(order.ordering_cone.W, dtype=float))
+    d = interior_dir(given_W(spec))
     if rng.random() < 0.6:
         c2 = (np.array(c2) + 12 * d).tolist()
     steps = []
@@ -658,8 +689,9 @@ def run_case(ctx, case):
     from vopy.confidence_region import EllipsoidalConfidenceRegion, RectangularConfidenceRegion
 
     order = build_order(case["order"])
-    W = np.array(order.ordering_cone.W, dtype=float)
+    W = given_W(case["order"])        # the caller's matrix: the model pairs slack[n] with the caller's row n
     N, m = W.shape
+    _check_rows(ctx, case, order, W)
     ws = core.qmat(W)
     slack = build_slack(case["slack"], case["sform"])
     ss = core.qvec(case["slack"])
@@ -741,6 +773,25 @@ def run_case(ctx, case):
         ctx.case_done(case, False)
         return
     _band(ctx, case, "ell", impl, model, lo, hi)
+
+
+def _rows_kept(order, W):
+    st = np.array(order.ordering_cone.W, dtype=float)
+    return st.shape == W.shape and bool(np.all(st == W))
+
+
+def _check_rows(ctx, case, order, W):
+    """the cone object must keep the caller's facets row for row (the per-facet slack is indexed by them);
+    reported once per worker as (F) here, and as (R) by `_band` when a verdict on the caller's pairing differs"""
+    if _rows_kept(order, W):
+        return
+    ctx.count("cone_rows_changed")
+    if not ctx.__dict__.get("_c09_rows_reported"):
+        ctx.__dict__["_c09_rows_reported"] = True
+        ctx.violation("cone-rows-stored-differently", "OrderingCone.W is not the matrix given to the constructor "
+                      "row for row (facet indices of a per-facet slack no longer address the caller's facets)",
+                      case, kind="F", detail={"stored": np.array(order.ordering_cone.W, dtype=float).tolist(),
+                                              "given": W.tolist()})
 
 
 def _lattice_ok(arrs):
@@ -904,7 +955,13 @@ def _band(ctx, case, kind, impl, model, lo, hi):
         ctx.case_done(case, False)
         return
     ctx.count(kind + "_band_robust_" + lo)
-    if impl != lo:
+    if impl != lo and not _rows_kept(build_order(case["order"]), given_W(case["order"])):
+        ctx.violation("cone-rows-reordered", "is_dominated differs from the ∀∀ predicate with the per-facet slack "
+                      "paired with the facets in the order the caller gave them; the cone object stores a "
+                      "different row order / row set than it was given", case,
+                      detail={"impl": impl, "model": model,
+                              "stored": np.array(build_order(case["order"]).ordering_cone.W, dtype=float).tolist()})
+    elif impl != lo:
         ctx.violation(kind + "-decision", ("Rectangular" if kind == "rect" else "Ellipsoidal") +
                       "ConfidenceRegion.is_dominated differs from the ∀∀ predicate outside the numerical band "
                       "(model verdict is the same with all facet thresholds moved by ±1e-6·scale)",
